@@ -1,0 +1,59 @@
+//go:build verif
+
+package gap
+
+// Contracts for uda/gap (C23), checked by /verif/govc. Compiled only with -tags=verif.
+
+//@ func bigGapIdxsByThreshold
+//@ props C23
+//@ loop 0 invariant #idx: 0 <= iter0 && iter0 <= len(gaps) && bigGapIdxs != nil
+//@ loop 0 invariant #sound: forall(j, 0, len(bigGapIdxs), 0 <= bigGapIdxs[j] && bigGapIdxs[j] < iter0 && gaps[bigGapIdxs[j]] > threshold)
+//@ loop 0 invariant #ascending: forall(j, 0, len(bigGapIdxs) - 1, bigGapIdxs[j] < bigGapIdxs[j+1])
+//@ loop 0 invariant #complete: forall(i, 0, iter0, gaps[i] > threshold ==> existsint(a, pattern(mem(bigGapIdxs)[a]), base(bigGapIdxs) <= a && a < base(bigGapIdxs)+len(bigGapIdxs) && mem(bigGapIdxs)[a] == i))
+//@ ensures #sound: forall(j, 0, len(result), 0 <= result[j] && result[j] < len(gaps) && gaps[result[j]] > threshold)
+//@ ensures #ascending: forall(j, 0, len(result) - 1, result[j] < result[j+1])
+//@ ensures #complete: forall(i, 0, len(gaps), gaps[i] > threshold ==> existsint(a, pattern(mem(result)[a]), base(result) <= a && a < base(result)+len(result) && mem(result)[a] == i))
+
+//@ import uda @/uda
+
+//@ func gonum.org/v1/gonum/floats.SubTo
+//@ trusted "gonum: dst[i] = s[i] - t[i]; panics unless all three lengths agree"
+//@ modifies mem:float64
+//@ requires #lens: len(s) == len(t) && len(dst) == len(s)
+//@ ensures #diff: forallint(a, pattern(mem(dst)[a]), (base(dst) <= a && a < base(dst)+len(dst)) ==> mem(dst)[a] == old(mem(s)[base(s) + a - base(dst)]) - old(mem(t)[base(t) + a - base(dst)]))
+//@ ensures #frame: forallint(a, pattern(mem(dst)[a]), (a < base(dst) || a >= base(dst)+len(dst)) ==> mem(dst)[a] == old(mem(dst))[a])
+//@ ensures #res: result == dst
+
+// Output indexes epochs[idx] and epochs[idx+1] for every recorded gap index: safe only when every index is a
+// valid gap position of the Epoch column of the saved input.
+//@ func (*Gap).Output
+//@ props C23
+//@ requires #idxInRange: (len(g.BigGapIdxs) > 0 && g.Input != nil && typeis(colOf(*g.Input, "Epoch"), "[]int64")) ==> forall(j, 0, len(g.BigGapIdxs), 0 <= g.BigGapIdxs[j] && g.BigGapIdxs[j] + 1 < len(asslice(colOf(*g.Input, "Epoch"), "int64")))
+//@ loop 0 invariant #idx: 0 <= iter0 && iter0 <= len(g.BigGapIdxs)
+
+//@ func gonum.org/v1/gonum/stat.Mean
+//@ trusted "gonum: pure function of its arguments"
+//@ pure
+
+//@ func gonum.org/v1/gonum/stat.StdDev
+//@ trusted "gonum: pure function of its arguments"
+//@ pure
+
+//@ func gonum.org/v1/gonum/stat.StdScore
+//@ trusted "gonum: pure function of its arguments"
+//@ pure
+
+//@ func math.Abs
+//@ trusted "stdlib: pure"
+//@ pure
+
+// The z-score variant is only given the index-range part of the contract (the statistics are third-party code).
+//@ func bigGapIdxsByZScoreThreshold
+//@ props C23
+//@ loop 0 invariant #idx: 0 <= iter0 && iter0 <= len(gaps) && bigGapIdxs != nil
+//@ loop 0 invariant #inRange: forall(j, 0, len(bigGapIdxs), 0 <= bigGapIdxs[j] && bigGapIdxs[j] < iter0)
+//@ ensures #inRange: forall(j, 0, len(result), 0 <= result[j] && result[j] < len(gaps))
+
+//@ func (*Gap).Accum
+//@ props C23
+//@ exit #gaps: (g.avgGapIntervalSeconds >= 0 && len(gaps) > 0) ==> forall(i, 0, len(gaps), gaps[i] == epochs[i+1] - epochs[i])
